@@ -50,9 +50,22 @@ def lexical_error_file(r, name="lex.c"):
         lines.append("\ta = %s + %s;" % (mal[0][0], mal[1][0]))     # two lexical diagnostics on one line
     if r.random() < 0.4:
         lines.append("\ta = a %s 1;" % r.choice(["@", "$", "`", "@@"]))   # characters that start no token
-    lines += ["\treturn (a);", "}"]
+    # diagnostics with several highlights at different positions
+    for extra in r.sample(["\ta = 0898;", "\ta = 0b1201304;", "\ta = 09129 + 08;", "\ta = 'ab", "\ta = 'a' + 'bc", "\ta = 'ab;"],
+                          r.randint(1, 3)):
+        lines.append(extra)
     if r.random() < 0.3:
-        lines.append(r.choice(["\"unterminated", "'x", "/* open"]))
+        lines.append("\ta = \"abc")      # unterminated string: swallows the rest of the file into one diagnostic
+        lines += ["\treturn (a);", "}"]
+        return name, "\n".join(lines) + "\n"
+    lines += ["\treturn (a);", "}"]
+    return name, "\n".join(lines) + "\n"
+
+
+def long_line_file(r, name="long.c"):
+    """diagnostics beyond column 1000 followed by diagnostics at small columns on the next lines"""
+    k = r.choice([260, 300, 400, 1200])
+    lines = ["int\tg_a = " + " + ".join(["1"] * k) + "+1;", "int g_b;", "int\tg_c = 2+2;"]
     return name, "\n".join(lines) + "\n"
 
 
@@ -120,6 +133,8 @@ def run_programs(spec):
         items = [(p.name, p.text(), "conf")] + [(q.name, q.text(), "viol") for q, o, _ in pipework.sampled_variants(p, rng, 3)]
         items.append(lexical_error_file(rng) + ("lexical",))
         items.append(multi_diag_file(rng) + ("multi",))
+        if rng.random() < 0.25:
+            items.append(long_line_file(rng) + ("long_line",))
         if rng.random() < 0.2:
             items.append(non_ascii_file(rng) + ("unicode",))
         for name, src, kind in items:
@@ -263,9 +278,24 @@ def domain():
     return vals, objs
 
 
+def wide_domain():
+    """single-highlight diagnostics over a wide position range (large lines and columns)"""
+    from norminette.errors import Error, Highlight
+    vals = [(n, ((l, c, None),)) for n in ("AAA", "MMM", "ZZZ") for l in (1, 2, 3, 999, 1000, 1001, 65536)
+            for c in (1, 2, 9, 99, 999, 1000, 1001, 4095, 4096, 100000)]
+    objs = [Error(n, "text", "Error", [Highlight(l, c, 1, h) for (l, c, h) in hs]) for n, hs in vals]
+    return vals, objs
+
+
 def run_comparator(spec):
     sh = Shard()
-    vals, objs = domain()
+    for vals, objs in ((domain()), (wide_domain())):
+        _comparator_on(sh, spec, vals, objs)
+    sh.cov["exhaustive_flag"] = True
+    return sh
+
+
+def _comparator_on(sh, spec, vals, objs):
     N = len(objs)
     lt = [0] * N
     for i in range(N):
@@ -339,9 +369,8 @@ def run_comparator(spec):
         if out != sorted(out):
             sh.violation("cmp_sorted", ("list not ascending",), {"mode": "cmp", "list": [desc(i) for i in idx]}, {"printed": out})
             break
+    return
     sh.sample({"domain_values": N, "example": desc(20)})
-    sh.cov["exhaustive_flag"] = True
-    return sh
 
 
 def run_shard(spec):
@@ -408,6 +437,6 @@ def finish(merged, tier, seed):
             inc.append("%s evaluated only %d times" % (k, a.get(k, 0)))
     return {"inconclusive": inc,
             "coverage": {"files": merged["cov"].get("files"),
-                         "exhaustive_subspaces": ["comparator: all ordered pairs and all triples over the 1026-value domain"]},
+                         "exhaustive_subspaces": ["comparator: all ordered pairs and all triples over the 1026-value domain and over a 210-value wide-position domain"]},
             "summary": ["files %s; comparator pairs %d, transitivity triples %d" % (
                 merged["cov"].get("files"), a.get("c08.cmp.asymmetric", 0), a.get("c08.cmp.transitive_triples", 0))]}
